@@ -183,6 +183,32 @@ def run(ctx):
                 res.violations.append({'what': f'formula {SYM[o]} differs from the typed library call',
                                        'input': {'op': o, 'left': repr(a), 'right': repr(b), 'route': 'formula'},
                                        'expected': want, 'got': got})
+    # operands that are RESULTS of functions returning native Python values (COUNT, MAX, ISBLANK…): the
+    # comparison must still follow the one order (TRUE is not 1), inside one formula and across cells (D64)
+    producers = {'COUNT(1)': 1, 'COUNT(1,2)': 2, 'COUNTA(Z9)': 0, 'MAX(1,2)': 2, 'MIN(0,5)': 0, 'ISBLANK(Z9)': True,
+                 'ISNUMBER("x")': False, 'ISTEXT("x")': True, 'LEN("ab")': 2, 'ISODD(11)': True}
+    for (fa, va), (fb, vb) in itertools.product(producers.items(), repeat=2):
+        for i, o in enumerate(OPS):
+            want = truth[(o, key_of(va), key_of(vb))] if (o, key_of(va), key_of(vb)) in truth else None
+            if want is None:
+                req = '\t'.join(['C09', 'op', o, wire(va), wire(vb)])
+                want = parse_kv(ctx.driver.batch([req])[0])['spec']
+            cells = {'Sheet1!A1': f'={fa}', 'Sheet1!B1': f'={fb}', 'Sheet1!C1': f'={fa}{SYM[o]}{fb}',
+                     'Sheet1!C2': f'=A1{SYM[o]}B1'}
+            try:
+                ev = Evaluator(ModelCompiler().read_and_parse_dict(cells))
+            except Exception as exc:  # noqa: BLE001
+                res.violations.append({'what': 'model does not compile', 'input': {'cells': cells}, 'expected': 'a model',
+                                       'got': repr(exc)})
+                continue
+            for addr in ('Sheet1!C1', 'Sheet1!C2'):
+                got = call_real(ev.evaluate, addr)
+                res.evaluations += 1
+                res.count('formula-over-function-results')
+                res.nontrivial.add(('fnres', o, fa, fb, addr))
+                if want != '-' and got != want:
+                    res.violations.append({'what': f'comparison {SYM[o]} of function results disagrees with the total order',
+                                           'input': {'cells': cells, 'cell': addr}, 'expected': want, 'got': got})
     # transitivity on the real code over triples (thorough: all; quick: sampled)
     nb = [v for v in vals if v is not None]
     lt = {(key_of(a), key_of(b)) for a in nb for b in nb if truth[('LT', key_of(a), key_of(b))] == 'B:1'}
